@@ -15,9 +15,20 @@ def _history(seed, confkw):
             rec.env(d); steps.append(d)
         rec.sync("-E"); steps.append("sync -E")
 
+        def add_nonempty():
+            """an ordinary pending change: a new or rewritten file that is not empty (an empty file written over a recorded
+            non-empty one would be a second trigger - the zero-size interlock - of its own)"""
+            dd = rng.randrange(confkw["nd"])
+            nm = rng.choice(g.names)
+            vals = g.content()
+            while not vals:
+                vals = g.content()
+            a.write_file(dd, nm, vals, mtime=g.stamp())
+            return "write %d/%s %r" % (dd, nm, vals)
+
         def pending(onto=None):
             if rng.random() < 0.5:
-                d = rng.choice([g.op_add, g.op_touch])()
+                d = rng.choice([add_nonempty, g.op_touch])()
                 if d:
                     rec.env(d); steps.append(d)
             if onto is not None and confkw["nd"] > 1 and rng.random() < 0.6:
@@ -69,9 +80,10 @@ def _history(seed, confkw):
                 if not cand or len(files) < 2:
                     continue
                 f = rng.choice(cand)
+                pending()
                 a.write_file(d, f, [], mtime=g.stamp())
                 rec.env("truncate %d/%s to zero size" % (d, f)); steps.append("truncate %d/%s to zero" % (d, f))
-                pending(); expect_refused(own="-Z"); proceed("-Z")
+                expect_refused(own="-Z"); proceed("-Z")
             elif trig in ("parity-small", "parity-lost"):
                 l = rng.randrange(confkw["np"])
                 p = a.pfile(l)
@@ -80,7 +92,12 @@ def _history(seed, confkw):
                 if trig == "parity-lost":
                     os.remove(p)
                 else:
-                    os.truncate(p, (os.path.getsize(p) // arr.BS - 1) * arr.BS)
+                    # one block less than the recorded state uses (the file may be longer than that after deletions)
+                    cfst = rec.lines[-1]["state"]["cf"]
+                    used = 1 + max([b["pos"] for dd in cfst.values() for e in dd.values() for b in e["bl"]] + [-1])
+                    if used < 1 or used * arr.BS > os.path.getsize(p):
+                        continue
+                    os.truncate(p, (used - 1) * arr.BS)
                 rec.env("%s level %d" % (trig, l), damage=True); steps.append("%s level %d" % (trig, l))
                 pending(); expect_refused(own="-F"); proceed("-F")
                 r, o = rec.check(); steps.append("check -> %s" % o["exit"])
@@ -113,7 +130,7 @@ def _history(seed, confkw):
                     # the first content copy of the configuration is lost before the first command starts; that command (a sync
                     # with something to do) writes it again before it goes through the stripes, and is stopped at its first
                     # parity write: the commands started then must find the array locked all the same
-                    dd = g.op_add()
+                    dd = add_nonempty()
                     if dd:
                         rec.env(dd); steps.append(dd)
                     first = ("sync", "-F")
